@@ -31,7 +31,7 @@ structure St where
 def parseDKind : String → Option DKind
   | "var" => some .var | "param" => some .param | "func" => some .func | "fb" => some .fb
   | "prog" => some .prog | "method" => some .method | "stype" => some .stype | "field" => some .field
-  | "cfg" => some .cfg | "task" => some .task | "inst" => some .inst | _ => none
+  | "cfg" => some .cfg | "task" => some .task | "inst" => some .inst | "enumval" => some .enumval | _ => none
 
 def parseOKind : String → Option OKind
   | "decl" => some .decl | "ref" => some .ref | "typ" => some .typ | "mem" => some .mem
